@@ -99,5 +99,30 @@ corrupt = json.loads(json.dumps(ev))
 corrupt[-1]["omap"][0] += 1                      # one bookkeeping field off by one
 nacc, rej, _ = pipecheck.validate_traces("selftest_traces", [res_of(ev), res_of(corrupt), res_of(ev[:-1])])
 expect("PipelineTrace: genuine hook trace accepted, corrupted omap rejected, missing event rejected", nacc == 1 and sorted(i for i, _ in rej) == [1, 2], "%d accepted, rejected %s" % (nacc, [i for i, _ in rej]))
+# the same for the calibrator's hook (H3) and CalibTrace.tla
+import importlib.util as _iu
+_spec = _iu.spec_from_file_location("calib_props", _os.path.join(_os.path.dirname(_os.path.dirname(_os.path.abspath(__file__))), "checks", "calib_props.py"))
+cp = _iu.module_from_spec(_spec)
+_spec.loader.exec_module(cp)
+_, _, cc = cp.runtime_view(cp.MODELS["chain"])
+cc.update(NSamples="2", MaxSessions="2", Fixes=tlc.tla_str_set(["deepcopy", "once"]))
+rb = tlc.run("selftest_calib_beh", "Calib", cc, constraints=["EmitB"], workers=8)
+behs = [json.loads(json.loads(line[line.index(",") + 1:line.rindex(">>")].strip())) for line in rb.printed("BEHAV")]
+beh = [b for b in behs if all(b["sel"]) and b["selIn"] and b["selOut"] and b["base"][0][2] >= b["base"][0][1] and b["base"][1][0] == 1][0]
+out = cp._replay(("chain", beh, 0, 2))
+tr = out["trace"]
+bad1 = json.loads(json.dumps(tr))
+k_op = [k for k, e in enumerate(bad1["events"]) if e["ev"] == "op" and e["updated"]][0]
+bad1["events"][k_op]["updated"] = bad1["events"][k_op]["updated"][:-1]      # one folded tensor not reported
+bad2 = json.loads(json.dumps(tr))
+del bad2["events"][k_op]                                                      # one operator event missing
+tpj = _os.path.join(tlc.WORK, "selftest_calib_traces.json")
+json.dump([tr, bad1, bad2], open(tpj, "w"))
+rt = tlc.run("selftest_calib_trace", "CalibTrace", cc, constraints=["EmitT"], spec_name="TraceSpec", workers=4, env={"TRACE_FILE": tpj}, extends="CalibTrace")
+acc = {}
+for line in rt.printed("TVERDICT"):
+  v = json.loads(json.loads(line[line.index(",") + 1:line.rindex(">>")].strip()))
+  acc[v["ti"]] = acc.get(v["ti"], False) or v["accepted"]
+expect("CalibTrace: genuine calibration trace accepted, corrupted 'updated' rejected, missing event rejected", acc == {1: True, 2: False, 3: False}, str(acc))
 print("SELFTEST", "PASSED" if ok else "FAILED")
 sys.exit(0 if ok else 1)
